@@ -2,7 +2,7 @@
    Theorems over all inputs of the models; the remaining Impl-vs-Spec relations are compared at run
    time by the C04b correspondence (listed in the evidence assumptions).  What the code computed
    before commits a37c004 / 27e8567 / d8f414a / fef12f3 is recorded as Examples in CCMProofs.v. *)
-From GmVerif Require Import Base.ListX Base.Bytes Hash.MD Cipher.SM4 Cipher.GF128 Cipher.GF128Proofs Cipher.GCM
+From GmVerif Require Import Base.ListX Base.Bytes Hash.MD Cipher.SM4 Cipher.GF128 Cipher.GF128Proofs Cipher.GF128Comm Cipher.GCM
   Cipher.CCM Cipher.AES Cipher.AESProofs Cipher.ZUC Cipher.ZUCProofs Cipher.ChaCha Cipher.ChaChaProofs Cipher.Aead Cipher.AeadProofs Cipher.GCMProofs Cipher.CCMProofs Cipher.AeadInstProofs.
 
 (* ---- GF(2^128) ---- *)
@@ -257,3 +257,47 @@ Theorem C04b_chacha20_counter_wraps :
   forall key nonce c, chacha20_init key nonce (c mod 2 ^ 32)%N = chacha20_init key nonce c.
 Proof. exact init_counter_mod. Qed.
 Print Assumptions C04b_chacha20_counter_wraps.
+
+(* ---- ZUC / ZUC-256 keystream generator: splitting the request (src/zuc.c zuc_generate_keystream,
+        zuc_generate_keyword, zuc256_generate_keystream = the same loop) ---- *)
+Theorem C04b_zuc_keystream_chunking :
+  forall n m s,
+  zuc_keystream (n + m) s =
+  let '(s1, z1) := zuc_keystream n s in
+  let '(s2, z2) := zuc_keystream m s1 in (s2, z1 ++ z2).
+Proof. exact zuc_keystream_app. Qed.
+Print Assumptions C04b_zuc_keystream_chunking.
+
+Theorem C04b_zuc_keyword_is_one_word_keystream :
+  forall s, zuc_keystream 1 s = let '(s1, z) := zuc_keyword s in (s1, [z]).
+Proof. exact zuc_keystream_one. Qed.
+Print Assumptions C04b_zuc_keyword_is_one_word_keystream.
+
+Theorem C04b_zuc_keystream_length :
+  forall n s, length (snd (zuc_keystream n s)) = n.
+Proof. exact zuc_keystream_length. Qed.
+Print Assumptions C04b_zuc_keystream_length.
+
+(* ---- GF(2^128) product: bilinear and commutative ---- *)
+Theorem C04b_gf128_mul_linear_r :
+  forall a b b' : N,
+  gf_mul_horner a (N.lxor b b') = N.lxor (gf_mul_horner a b) (gf_mul_horner a b').
+Proof. exact gf_mul_horner_lxor_r. Qed.
+Print Assumptions C04b_gf128_mul_linear_r.
+
+Theorem C04b_gf128_mul_zero_r :
+  forall a : N, gf_mul_horner a 0 = 0%N.
+Proof. exact gf_mul_horner_0_r. Qed.
+Print Assumptions C04b_gf128_mul_zero_r.
+
+(* on all 128-bit operands (reduced by bilinearity to the 128 x 128 table x^i.x^j = x^j.x^i, computed in the kernel) *)
+Theorem C04b_gf128_mul_comm :
+  forall a b : N, (a < 2 ^ 128)%N -> (b < 2 ^ 128)%N -> gf_mul_horner a b = gf_mul_horner b a.
+Proof. exact gf_mul_horner_comm. Qed.
+Print Assumptions C04b_gf128_mul_comm.
+
+(* the two-limb loop of src/gf128.c itself: gf128_mul(r, a, b) = gf128_mul(r, b, a) for all 64-bit limb pairs *)
+Theorem C04b_gf128_mul_limbs_comm :
+  forall a b : gf, L64 (fst a) -> L64 (snd a) -> L64 (fst b) -> L64 (snd b) -> gf128_mul a b = gf128_mul b a.
+Proof. exact gf128_mul_comm. Qed.
+Print Assumptions C04b_gf128_mul_limbs_comm.
